@@ -204,6 +204,23 @@ class RecTrans(RecReg, TransformerMixin):
         return self.predict(X).reshape((-1, 1))
 
 
+class RecTransU(RecReg, TransformerMixin):
+    """unsupervised stub transformer: fit(X, y=None, sample_weight=None) records the rows and weights it gets (no
+    targets), transform returns the row id in one column"""
+
+    def fit(self, X, y=None, sample_weight=None):
+        rows = ids(X)
+        ws = [] if sample_weight is None else [int(round(float(v))) for v in numpy.asarray(sample_weight).ravel()]
+        ys = [] if y is None else [int(round(float(v))) for v in numpy.asarray(y).ravel()]
+        LOG.append(("fit", dict(tag=self.tag, rows=rows, ys=ys, ws=ws, obj=id(self))))
+        self.sumy_ = sum(ys)
+        self.rows_ = rows
+        return self
+
+    def transform(self, X):
+        return self.predict(X).reshape((-1, 1))
+
+
 class WarmReg(RecReg):
     """like RecReg, but the fitted state lives in a numpy array that a later fit overwrites IN PLACE (as warm-started
     linear models do with coef_): a "copy" that shares memory with its original is exposed by re-training it"""
